@@ -71,6 +71,7 @@ pub fn check(case: &Case) -> Outcome {
     let mut cursor = 0usize;
     let mut undos_in_a_row = 0usize;
     let mut nontrivial = false;
+    let mut named_style_applied = false;
     for (step, op) in case.ops.iter().enumerate() {
         match op {
             Op::Undo => {
@@ -134,6 +135,17 @@ pub fn check(case: &Case) -> Outcome {
                     o.excluded += 1;
                     o = o.label(format!("guard-skipped:{reason}"));
                     continue;
+                }
+                // listed finding (C01 undo(NamedStyleUpdate)): undo of a style change re-applies
+                // explicit formatting, the cell loses its link to the named style and a later redo
+                // links it again; the run-time guard above only sees the links of the moment
+                if case.profile != Profile::Full && matches!(op, Op::NamedStyleUpdate { .. }) && named_style_applied {
+                    o.excluded += 1;
+                    o = o.label("guard-skipped:named-style-update-after-apply");
+                    continue;
+                }
+                if matches!(op, Op::NamedStyleApply { .. }) {
+                    named_style_applied = true;
                 }
                 let before = um.verif_history_len();
                 let res = ops::apply(&mut um, op);
